@@ -76,7 +76,11 @@ def worker(args):
     specs, _ = c04.mode_specs(dis, k)
     fmts = [(n, v) for n, v in sorted(vars(cpu).items()) if isinstance(v, core.Formatter)]
     res = {"name": name, "mode": k, "n": 0, "decoded": 0, "finds": {}, "stages": {}, "samples": [], "mnemonics": set()}
-    signal.signal(signal.SIGALRM, _alarm)
+    # CPU-time limits (ITIMER_PROF), not wall-clock alarms: on a loaded machine a 10 s wall alarm fires on probes that need 10 ms
+    signal.signal(signal.SIGPROF, _alarm)
+
+    def arm(seconds):
+        signal.setitimer(signal.ITIMER_PROF, seconds)
     e = dis.endian()
     ml = dis.maxlen
 
@@ -106,7 +110,7 @@ def worker(args):
                     m = mapper()
                     done = []
                     for n, b in enumerate(([prev] if prev else []) + blobs):
-                        signal.alarm(5)
+                        arm(5)
                         try:
                             isa.reset_pending(dis)
                             i = dis(b)
@@ -125,7 +129,7 @@ def worker(args):
                             m = mapper()
                             done = []
                         finally:
-                            signal.alarm(0)
+                            arm(0)
             except Timeout:
                 pass
             finally:
@@ -154,12 +158,12 @@ def worker(args):
         res["n"] += 1
         # the decoder keeps whatever its earlier calls left; sometimes junk that is not an instruction is decoded first
         hist[0] = isa.junk_history(dis, (name, k))
-        signal.alarm(10)
+        arm(10)
         try:
             try:
                 i = dis(b)
             except Timeout:
-                finding("decode", Timeout("decode did not terminate in 10s"), b)
+                finding("decode", Timeout("decode did not terminate in 10 s of CPU time"), b)
                 return
             except RecursionError as x:
                 finding("decode", x, b)
@@ -251,9 +255,9 @@ def worker(args):
             if len(res["samples"]) < 1:
                 res["samples"].append({"isa": name, "mode": k, "bytes": b.hex(), "mnemonic": i.mnemonic, "length": len(i.bytes)})
         except Timeout:
-            finding("timeout", Timeout("stage did not terminate in 10s"), b)
+            finding("timeout", Timeout("stage did not terminate in 10 s of CPU time"), b)
         finally:
-            signal.alarm(0)
+            arm(0)
 
     with isa.ModeCtx(dis, k):
         batch = []
